@@ -183,9 +183,9 @@ func modules() []*module {
 	}
 }
 
-// fingerprint renders every field of a rule (struct or pointer to struct) canonically; two
-// rules have the same fingerprint iff all their fields are equal (maps: sorted entries with
-// the dynamic type of every key).
+// fingerprint renders every field of a rule except its ID (struct or pointer to struct)
+// canonically; two rules have the same fingerprint iff all their other fields are equal (maps:
+// sorted entries with the dynamic type of every key).
 func fingerprint(x interface{}) string {
 	rv := reflect.ValueOf(x)
 	for rv.Kind() == reflect.Ptr {
@@ -195,6 +195,12 @@ func fingerprint(x interface{}) string {
 	t := rv.Type()
 	for i := 0; i < rv.NumField(); i++ {
 		f := rv.Field(i)
+		if n := t.Field(i).Name; n == "ID" || n == "Id" {
+			// the rule managers keep the loaded rule object when an equal rule is reloaded, and their
+			// equality ignores the ID (flow/circuitbreaker/hotspot isEqualsTo): the ID in force may be
+			// the earlier payload's. The wire cases compare the ID at the parser's output.
+			continue
+		}
 		sb.WriteString(t.Field(i).Name)
 		sb.WriteByte('=')
 		if f.Kind() == reflect.Map {
